@@ -50,9 +50,10 @@
        [wf_keys]: [wf_strict_keys]): single RESULT keys have group 0 and group
        PARAMETER keys have a group name (else 130: [cex_kind1], [cex_kind2]);
        the keys of one group result are pairwise distinct (else the member is
-       committed twice, 141 / 150: [cex_dupas]); a decorator returns each key
-       once (else the model keeps the last result and the spec names the first
-       slot, 110 / 130: [cex_dupdec]).
+       committed twice, 141 / 150: [cex_dupas]).  That a decorator returns
+       each key once is no longer a hypothesis: [decorate] rejects such a
+       decorator, so the invariant follows from its own check
+       ([decorate_ok_inv]; [cex_dupdec] is now a rejected Decorate).
 
    Structure
      Part 0-2   lists; the chronological log [LG]; build order and [place]
@@ -487,12 +488,14 @@ Definition noopt_sig (sg : fsig) : bool := negb (existsb is_opt_leaf (sig_leaves
 Definition op_strict (o : op) : bool :=
   match o with
   | OProvide _ p => wf_sig2 (pi_sig p)
-  | ODecorate _ p => wf_dsig2 (di_sig p)
+  | ODecorate _ p => wf_sig2 (di_sig p)
   | OInvoke _ p => forallb pleaf_ok2 (sig_leaves (ii_sig p))
   | _ => true
   end.
 (* single results carry no group name, group results and group parameters do;
-   a group result lists each key once; a decorator returns each key once *)
+   a group result lists each key once.  (That a decorator returns each key
+   once is NOT required here: [decorate] rejects a decorator returning a key
+   twice, so the invariant [si_dsig] below follows from its own check.) *)
 Definition wf_strict (h : history) : bool := forallb op_strict h.
 
 Definition op_sig (o : op) : fsig :=
@@ -3536,10 +3539,13 @@ Section Assembly.
   Lemma decorate_ok_inv : forall st s p st',
     SInv st -> s < length (st_scopes st) ->
     decorate st s p = (VOk, st') ->
-    wf_dsig2 (di_sig p) = true -> (NO = true -> noopt_sig (di_sig p) = true) ->
+    wf_sig2 (di_sig p) = true -> (NO = true -> noopt_sig (di_sig p) = true) ->
     SI NO st /\ UI st /\ CI bt st -> SI NO st' /\ UI st' /\ CI bt st'.
   Proof.
-    intros st s p st' HS Hs E Hwf Hno (HSI & HUI & HCI).
+    intros st s p st' HS Hs E Hwf0 Hno (HSI & HUI & HCI).
+    assert (Hwf : wf_dsig2 (di_sig p) = true).
+    { unfold wf_dsig2. rewrite Hwf0. cbn [andb]. unfold decorate in E.
+      destruct (nodupb key_eqb (dec_keys (di_sig p))); [reflexivity|]. cbn [negb orb] in E. discriminate E. }
     destruct (decorate_ok_shape st s p st' Hs E) as (Hn & Hd & _ & Hprov & _ & _ & _).
     pose proof (P_Once.decorate_spec st s p) as Hspec. rewrite E in Hspec. cbn [snd fst] in Hspec.
     destruct Hspec as (_ & _ & HL & Hsc & _).
@@ -3956,7 +3962,7 @@ Proof.
   intros h H. unfold wf_strict, wf_keys in *. rewrite forallb_forall in *. intros o Ho. specialize (H o Ho).
   destruct o as [p|s p|s p|s p|k s f]; cbn [op_strict op_keys_ok] in *; try reflexivity.
   - apply wf_sig2_wf_sig. exact H.
-  - unfold wf_dsig2 in H. apply andb_true_iff in H as [H _]. apply wf_sig2_wf_sig. exact H.
+  - apply wf_sig2_wf_sig. exact H.
   - rewrite forallb_forall in *. intros l Hl. apply pleaf_ok2_leaf_ok. apply H. exact Hl.
 Qed.
 
@@ -4169,13 +4175,16 @@ Module Counterexamples.
                            chk_prov [] cex_dupas (map obs_of (run cfg0 (beh_of []) d0 cex_dupas))) =
                           (true, true, true, false, [(1, 141)]).
   Proof. vm_compute. reflexivity. Qed.
-  (* a decorator returning the same key twice: the model keeps the LAST result, the spec names the FIRST slot: 110 *)
+  (* a decorator returning the same key twice (formerly 110: the model kept the LAST result, the spec
+     named the FIRST slot) is now rejected by [decorate]; wf_strict no longer has to exclude it *)
   Definition cex_dupdec : history :=
     [ OProvide 0 (mkProvideIn 1 (mkSig [] [RSingle (K 1) []] false) false false);
       ODecorate 0 (mkDecorateIn 2 (mkSig [] [RSingle (K 1) []; RSingle (K 1) []] false) false);
       OInvoke 0 (mkInvokeIn 3 (mkSig [PSingle (K 1) false] [] false)) ].
-  Example cex_dupdec_110 : (wf_scopes cex_dupdec, wf_keys cex_dupdec, P_Once.wf_fns cex_dupdec, wf_strict cex_dupdec,
-                            chk_prov [] cex_dupdec (map obs_of (run cfg0 (beh_of []) d0 cex_dupdec))) =
-                           (true, true, true, false, [(2, 110)]).
+  Example cex_dupdec_rejected :
+    (wf_scopes cex_dupdec, wf_keys cex_dupdec, P_Once.wf_fns cex_dupdec, wf_strict cex_dupdec,
+     map oo_verdict (map obs_of (run cfg0 (beh_of []) d0 cex_dupdec)),
+     chk_prov [] cex_dupdec (map obs_of (run cfg0 (beh_of []) d0 cex_dupdec))) =
+    (true, true, true, true, [OVOk; overdict_of (VErr err_dec_dup); OVOk], []).
   Proof. vm_compute. reflexivity. Qed.
 End Counterexamples.
